@@ -44,7 +44,7 @@ def run(ctx):
     if missing:
         raise MachineryError(f"vacuous model run: no state in phase {sorted(missing)}")
     enumerated = len(cases)
-    for _ in range(500 if ctx.quick else 30000):
+    for _ in range(500 if ctx.quick else 60000):
         uni = persist.random_universe(rng)
         if rng.random() < 0.7:
             hist = persist.pipeline_history(rng, uni)
@@ -109,5 +109,6 @@ def replay(ctx, record):
     event = observe(case)
     if event.pop("build"):
         raise MachineryError("the recorded case can no longer be built")
-    ctx.validate("Persist_Trace", [event], {0: {"op": record["op"], "input": record["input"]}})
+    observed = {key: {"exc": event[key]["exc"], "out1": event[key]["out1"], "out2": event[key]["out2"]} for key in ("gb", "json", "file")}
+    ctx.validate("Persist_Trace", [event], {0: {"op": record["op"], "input": record["input"], "observed": observed}})
     ctx.failures = [f for f in ctx.failures if f["op"] == record["op"] and f["clause"] == record["clause"]]
